@@ -6,23 +6,56 @@ ID = "C16"
 READY = True
 ORACLE = "c16"
 HARNESS_BIN = "c16"
-NCASES = {"quick": 9000, "thorough": 120000}
+NCASES = {"quick": 10000, "thorough": 140000}
 CASE_TIMEOUT = {"quick": 3, "thorough": 30}
 SHRINK = False
 
-LEVEL_TEXT = ("Machine-checked Coq theorems about the panic sets: a table `documented : call -> option reason` transcribed from the "
-              "`# Panics` sections and the three error.rs files, as-is models of the panic mechanisms the property anchors "
-              "(try_into().unwrap() of the primitive-operand forms, the float guard sequences assert_finite / assert_limited_precision / "
-              "sign tests, the series loop of ln), theorems `asis c = Panic r <-> documented c = Some r` outside the listed finding "
-              "classes, and termination (fuel sufficiency) theorems for the loops modelled in the development (Newton roots, ilog "
-              "correction, remove, ring inverse, rational gcd, simplest_in).  The whole public surface is tied to the table by a "
-              "watchdog-supervised correspondence run judged by the OCaml extraction of the table.")
-LEVEL_NOTE = ("Trusted: Coq kernel, extraction, the dictionary operation-name -> call family in oracle/driver_c16.ml, the harness, the "
-              "runner's watchdog.  Wall-clock termination and allocator behaviour of the real code are observed, not proved; the "
-              "near-overflow band of isize exponents is accepted either way (ok or overflow panic) and counted.")
+LEVEL_TEXT = ("Machine-checked Coq theorems (coq/props/C16.v), for all inputs.  (1) Panic sets: the table `documented : call -> list reason` "
+              "transcribed from the `# Panics` sections and the three error.rs files is characterised reason by reason (div, unsigned sub, gcd, "
+              "roots, ilog, radix, ring); the as-is models of the panic mechanisms the property anchors are tied to it: try_into().unwrap() of "
+              "the primitive-operand forms panics undocumented exactly in the two recorded classes; the float guard sequences (assert_finite, "
+              "assert_limited_precision, sign / zero / domain tests, incl. the ln domain check of 60b59c4) never leave the table - no class "
+              "excluded - and for every operation except powf and the total ones return iff no documented precondition is violated, else "
+              "panic with the first listed reason (float_guards_exact); operator-form float division stays in the table unless the dividend "
+              "is longer than repr_div supports (open class float_operand_exceeds_precision, never for operands respecting the FBig "
+              "invariant).  (2) Termination, proved here: the Farey walk needs a number of steps linear in the limit (finding); the series "
+              "loops of iacoth, ln and exp on exact rationals leave within an explicit number of steps (steps_half / steps_geo) for reduced "
+              "arguments (1/n, n >= 2; |z| <= 1/3 or z^2 < 1; |r| <= 1/2 or < 1) whenever the stopping threshold is bounded below by eps > 0.  "
+              "(3) Termination / totality imported from the other developments and pinned as C16 obligations: "
+              "C04 cgcd_fuel_enough (const gcd loop); "
+              "C18 simplest_in_asis_optimal / _equal (simplest_in returns for all end points, never out of fuel), farey_neighbors_asis_ok "
+              "(stops within limit + 1 steps); "
+              "C02 dc_fix_loop_total, dc_small_quotient_total, div_rem_in_place_correct, div_rem_large_correct (division kernels return, no "
+              "'not enough memory'), and the closed instances s_div_rem_in_place_correct, s_division_unconditional (every division entry "
+              "point returns floor quotient / remainder for a non-zero divisor: no panic, no fuel), s_zero_divisor (DivideBy0 exactly for "
+              "a zero divisor), nm_checks_hold (no debug assertion / overflow check inside num-modular's reciprocal division fires); "
+              "C12 newton_root_terminates, nth_root_asis_panics, inth_root_asis_panics (roots panic exactly on the documented set), "
+              "log_large_loop_terminates, lwb_stage_b_terminates (ilog correction loops), remove_asis_terminates, prim_gcd_asis_terminates, "
+              "prim_gcd_asis_panics, euclid_ext_terminates; "
+              "C07 body_asis_correct, from_str_radix_asis_correct (integer parser: every text gives the value or the error kind of the "
+              "specification, no panic); "
+              "C19 w_rbig_dec_total, w_relaxed_dec_total, w_fbig_dec_total (binary deserialisers: canonical value or error on every byte "
+              "string); C20 naive_gcd_loop_fuel (macro gcd loop); C13 window_loop_ok (sliding-window exponentiation loop returns within "
+              "bit index + 1 iterations), egcd_loop_ok (ring inverse loop).  "
+              "The whole public surface is tied to the table by a watchdog-supervised correspondence run judged by the OCaml extraction of "
+              "the table: every ownership form (vv vr rv rr, assigning by value / by reference) x word-count class of every operation with a "
+              "documented panic, and every parser configuration x every character position of well-formed literals with a multi-byte "
+              "character inserted, are swept on every run.")
+LEVEL_NOTE = ("Only compared (not proved): the outcome class ok / err / panic class / hang / crash of every operation that has no as-is model "
+              "here (the table is the judge; the dictionary operation name -> call family in oracle/driver_c16.ml is trusted); the float and "
+              "rational parsers and the human-readable deserialisers (no model: run only, incl. the injected multi-byte sweep); the series "
+              "loops with the real rounding of each operation and the real sub_ulp (the theorems abstract every operation as exact and the "
+              "threshold as any function bounded below; that the argument reduction delivers |r| <= 1/2 is a hypothesis); that the word-level "
+              "scratch buffers suffice for multiplication (see ScratchMemory when present) ; wall clock and allocator behaviour are observed.  "
+              "The near-overflow band of isize exponents is accepted either way (ok or overflow panic) and counted.  Trusted: Coq kernel, "
+              "extraction, the driver dictionary, the harness, the runner's watchdog.")
 TECHNIQUE = "Coq proof of panic-set tables and fuel sufficiency + watchdog-supervised correspondence run over the public surface"
-RULE = ("cases = public operation (every call form the harness knows: by value / by reference / assigning / primitive operand of each "
-        "width) x edge arguments {0, 1, -1, 2^63, 2^64-1, 2^64, word-count classes of the shared generator, primitive MIN/MAX, "
+RULE = ("cases = two systematic sweeps on every run - (a) every ownership form vv vr rv rr av ar x word-count class (1/1, 1/2, 2/2 words, "
+        "equal length differing in the low / the top word, equal, either operand longer, large against 1 or 2 words) of every violated "
+        "documented precondition of the binary operators and methods of UBig, IBig, mixed UBig/IBig, FBig, RBig, Relaxed; (b) every parser "
+        "configuration (14 integer / rational entry points x radix, FBig and Repr in 6 bases) x every character position of well-formed "
+        "literals with a 2-, 3- or 4-byte character inserted - plus random cases = public operation (every call form the harness knows: by "
+        "value / by reference / assigning / primitive operand of each width) x edge arguments {0, 1, -1, 2^63, 2^64-1, 2^64, word-count classes of the shared generator, primitive MIN/MAX, "
         "infinities, precision 0/1/2/small, exponents 0, +-1, +-small, +-2^62, isize::MIN/MAX, radix 0/1/2/36/37, shift counts up to "
         "2^24 and usize::MAX where the result is small, empty / non-ASCII / overlong strings, random byte streams for the "
         "deserialisers}.  A case is non-trivial when the oracle evaluated the extracted table on it and the operation is not in the "
@@ -393,13 +426,9 @@ def gen_float(rng, tier, out):
         out.append("f.%s %s %s" % (op, head, x))
     elif k < 84:
         op = rng.choice(F_VALINT)
-        if prec == 0 and op in ("op_div_int", "op_int_div"):
-            op = "op_mul_int"     # FBig of unlimited precision divided by / dividing an integer: see the report (Context::max)
         out.append("f.%s %s %s %s" % (op, head, fval(rng, base, prec, True, huge), hx(small_int(rng))))
     elif k < 87:
         op = rng.choice(F_VALSMALL)
-        if prec == 0:
-            op = "op_sub_i32"
         n = rng.choice([0, 0, 1, 2, 255]) if op == "op_div_u8" else rng.choice([0, 1, -1, (1 << 31) - 1, -(1 << 31)])
         out.append("f.%s %s %s %s" % (op, head, fval(rng, base, prec, True, huge), hx(n)))
     elif k < 92:
@@ -492,6 +521,228 @@ def rand_string(rng):
     return "".join(chr(rng.choice([rng.range(32, 126), rng.range(0x80, 0x7ff), rng.range(0x800, 0xd7ff), rng.range(0x10000, 0x10ffff)])) for _ in range(rng.range(1, 8)))
 
 
+# ------------------------------------------------------------------------------------------------
+# ownership forms x size classes of the operations with a documented panic
+# ------------------------------------------------------------------------------------------------
+FORMS6 = ["vv", "vr", "rv", "rr", "av", "ar"]
+FORMS4 = ["vv", "vr", "rv", "rr"]
+INT_OPS6 = ["add", "sub", "mul", "div", "rem"]
+INT_OPS4 = ["divrem", "div_euclid", "rem_euclid", "divrem_euclid", "gcd", "gcd_ext"]
+INT_DIVLIKE = ["div", "rem", "divrem", "div_euclid", "rem_euclid", "divrem_euclid", "divrem_assign"]
+MIXED4 = ["div_iu", "rem_iu", "div_ui", "rem_ui", "sub_ui"]
+SIZE_CLASSES = ["w1_w1", "w1_w2", "w2_w1", "w2_w2", "same_lowdiff", "same_topdiff", "same_equal", "a_longer", "b_longer", "big_w1", "w1_big",
+                "big_w2", "w2_big"]
+
+
+def forms_of(op):
+    if op == "divrem_assign":
+        return ["av", "ar"]
+    return FORMS6 if op in INT_OPS6 else FORMS4
+
+
+def size_pair(rng, cls):
+    """a pair of magnitudes (lo, hi) with lo <= hi of the word-count class; lo < hi except for same_equal"""
+    n = rng.choice([3, 3, 4, 5, 8, 17])
+    if cls == "w1_w1":
+        a, b = gen_mag(rng, 1), gen_mag(rng, 1)
+    elif cls in ("w1_w2", "w2_w1"):
+        a, b = gen_mag(rng, 1), gen_mag(rng, 2)
+    elif cls == "w2_w2":
+        a, b = gen_mag(rng, 2), gen_mag(rng, 2)
+    elif cls == "same_lowdiff":
+        hi = gen_mag(rng, n) >> 64 << 64
+        a, b = hi | rng.bits(63), hi | (1 << 63) | rng.bits(63)
+    elif cls == "same_topdiff":
+        # the smaller number has the larger low words: a word-wise subtraction borrows all the way up
+        t = rng.range(1, (1 << 64) - 2)
+        a = (t << (64 * (n - 1))) | ((1 << (64 * (n - 1))) - 1 - rng.bits(20))
+        b = ((t + 1) << (64 * (n - 1))) | rng.bits(20)
+    elif cls == "same_equal":
+        a = b = gen_mag(rng, n)
+    elif cls in ("a_longer", "b_longer"):
+        a, b = gen_mag(rng, n), gen_mag(rng, n + rng.choice([1, 1, 2, 5]))
+    elif cls in ("big_w1", "w1_big"):
+        a, b = gen_mag(rng, 1), gen_mag(rng, n)
+    else:
+        a, b = gen_mag(rng, 2), gen_mag(rng, n)
+    lo, hi = min(a, b), max(a, b)
+    if lo == hi and cls != "same_equal":
+        hi += 1
+    return lo, hi
+
+
+def ordered(cls, lo, hi, want_a_less):
+    """orient the pair: the class name says which operand is the long one; want_a_less overrides it where both have the same length"""
+    if cls in ("w2_w1", "a_longer", "big_w1", "big_w2"):
+        return hi, lo
+    if cls in ("w1_w2", "b_longer", "w1_big", "w2_big"):
+        return lo, hi
+    return (lo, hi) if want_a_less else (hi, lo)
+
+
+def forms_sweep(rng):
+    """every ownership form x every size class for every violated documented precondition (always part of a run)"""
+    out = []
+    # unsigned subtraction below zero
+    for form in FORMS6:
+        for cls in SIZE_CLASSES:
+            lo, hi = size_pair(rng, cls)
+            if cls == "same_equal":
+                out.append("u.sub@%s %s %s" % (form, hx(lo), hx(hi)))          # equal operands: no panic
+                continue
+            a, b = ordered(cls, lo, hi, True)
+            out.append("u.sub@%s %s %s" % (form, hx(a), hx(b)))                 # a < b for the classes that allow it
+            if a < b and cls in ("same_lowdiff", "same_topdiff", "w1_w1", "w2_w2"):
+                out.append("u.sub@%s %s %s" % (form, hx(b), hx(a)))             # and the mirrored, legal one
+    # division by zero, gcd(0, 0)
+    dividends = [0, 1, None, None, None, None]
+    for fam in "ui":
+        for op in INT_DIVLIKE:
+            for form in forms_of(op):
+                for i, d in enumerate(dividends):
+                    a = d if d is not None else gen_mag(rng, [1, 2, 3, rng.choice([4, 9, 33])][i - 2])
+                    if fam == "i" and rng.chance(1, 2):
+                        a = -a
+                    out.append("%s.%s@%s %s 0" % (fam, op, form, hx(a)))
+        for op in ("gcd", "gcd_ext"):
+            for form in FORMS4:
+                out.append("%s.%s@%s 0 0" % (fam, op, form))
+                out.append("%s.%s@%s 0 %s" % (fam, op, form, hx(gen_mag(rng, rng.choice([1, 2, 3, 5])))))
+                out.append("%s.%s@%s %s 0" % (fam, op, form, hx(gen_mag(rng, rng.choice([1, 2, 3, 5])))))
+    for op in ("div_iu", "rem_iu", "div_ui", "rem_ui"):
+        for form in FORMS4:
+            for nw in (0, 1, 2, 4):
+                out.append("i.%s@%s %s 0" % (op, form, hx(gen_mag(rng, nw))))
+    # floats: division / remainder by zero, an infinite operand; rationals: division by zero
+    def fin(bt):
+        return "%s %s" % (hx(fsig(rng, BASES[bt], 5, True)), hx(rng.range(-9, 9)))
+    for form in FORMS6:
+        for op in ("op_div", "op_rem"):
+            bt = rng.choice(list(BASES))
+            out.append("f.%s@%s %s %s 5 %s 0 0" % (op, form, bt, rng.choice(MODES), fin(bt)))
+        for op in ("op_add", "op_sub", "op_mul", "op_div", "op_rem"):
+            bt = rng.choice(list(BASES))
+            x, y = fin(bt), rng.choice(["inf 0", "-inf 0"])
+            if rng.chance(1, 2):
+                x, y = y, x
+            out.append("f.%s@%s %s %s 5 %s %s" % (op, form, bt, rng.choice(MODES), x, y))
+        out.append("f.op_div@%s %s %s 0 %s 0 3 0" % (form, rng.choice(list(BASES)), rng.choice(MODES), hx(rng.bits(12))))
+        for fam in "qr":
+            for op in ("div", "rem"):
+                n, d = rat_parts(rng, "quick")
+                out.append("%s.%s@%s %s %s 0 1" % (fam, op, form, hx(n), hx(d)))
+    return out
+
+
+def gen_forms(rng, tier, out):
+    """random member of the form x size-class product (legal and violating alike)"""
+    k = rng.below(10)
+    if k < 6:
+        fam = rng.choice("ui")
+        op = rng.choice(INT_OPS6 + INT_OPS4 + ["divrem_assign"])
+        cls = rng.choice(SIZE_CLASSES)
+        lo, hi = size_pair(rng, cls)
+        a, b = ordered(cls, lo, hi, rng.chance(1, 2))
+        if fam == "i":
+            a, b = (-a if rng.chance(1, 2) else a), (-b if rng.chance(1, 2) else b)
+        if op != "sub" and rng.chance(1, 5):
+            b = 0
+        if op in ("gcd", "gcd_ext") and rng.chance(1, 6):
+            a = b = 0
+        out.append("%s.%s@%s %s %s" % (fam, op, rng.choice(forms_of(op)), hx(a), hx(b)))
+    elif k < 7:
+        op = rng.choice(MIXED4)
+        a, b = edge_int(rng, tier, True), edge_int(rng, tier, True)
+        if op.endswith("_iu"):
+            b = abs(b)
+        else:
+            a = abs(a)
+        if rng.chance(1, 4):
+            b = 0
+        out.append("i.%s@%s %s %s" % (op, rng.choice(FORMS4), hx(a), hx(b)))
+    elif k < 9:
+        bt = rng.choice(list(BASES))
+        prec = rng.choice([0, 1, 2, 5, 17, 64])
+        op = rng.choice(["op_add", "op_sub", "op_mul", "op_div", "op_rem"])
+        if prec == 0 and op == "op_div":
+            prec = 3
+        x, y = fval(rng, BASES[bt], prec, True, False), fval(rng, BASES[bt], prec, True, False)
+        if rng.chance(1, 5):
+            y = "0 0"
+        out.append("f.%s@%s %s %s %x %s %s" % (op, rng.choice(FORMS6), bt, rng.choice(MODES), prec, x, y))
+    else:
+        fam = rng.choice("qr")
+        n, d = rat_parts(rng, tier)
+        n2, d2 = rat_parts(rng, tier)
+        if rng.chance(1, 4):
+            n2, d2 = 0, 1
+        out.append("%s.%s@%s %s %s %s %s" % (fam, rng.choice(["add", "sub", "mul", "div", "rem"]), rng.choice(FORMS6), hx(n), hx(d), hx(n2), hx(d2)))
+
+
+# ------------------------------------------------------------------------------------------------
+# malformed text built from well-formed literals: one foreign character at every position
+# ------------------------------------------------------------------------------------------------
+TEMPLATES = ["0", "-0", "+0", "7", "-12", "0.5", "-0.5", "+0.", ".5", "0x1f", "-0x1.8p3", "0X10", "0b101", "0o17", "1e5", "0e0", "-1.5e-3", "1_000",
+             "0_1", "1/2", "-0/1", "0x1/0x2", "1.5@3", "0x.8p-1", "00", "0x0", "0p0", "inf", "-inf", "z0", "0z"]
+FOREIGN = ["\u00e9", "\u00d7", "\u0663", "\u4e00", "\uff11", "\u221e", "\u2212", "\U0001f600", "\U00010000", "\u0301", "\u0080", "\u07ff", "\u0800",
+           "\uffff", "\U0010ffff"]
+FOREIGN_ASCII = ["\u0000", " ", "\u007f", "x", "X", "_", ".", "-", "+", "/", "e", "p", "@", "#"]
+
+
+QUICK_TEMPLATES = ["0", "-0.5", "0x1.8p3", "1_0e-2", "1/0x2", "+0b1@1"]     # every structural position once: after the sign, the leading
+#                      zero, the radix prefix, a digit, the point, the scale marker, its sign, the underscore, the slash; start and end
+
+
+def parser_configs(radixes=(2, 10, 16, 36)):
+    cfg = ["p.%s" % p for p in PARSERS_S]
+    for p in PARSERS_R:
+        for r in radixes:
+            cfg.append("p.%s %x" % (p, r))
+    for p in ("fbig", "repr"):
+        for b in FBASES:
+            cfg.append("p.%s %s" % (p, b))
+    return cfg
+
+
+def inject(t, pos, ch, replace):
+    return t[:pos] + ch + t[pos + (1 if replace else 0):]
+
+
+def parse_sweep(rng, tier):
+    """every parser configuration x every template x every character position: one multi-byte character inserted
+    (quick: six templates covering every structural position, the byte width and the radix rotate;
+    thorough: all templates, every width, insertion and replacement)"""
+    out = []
+    wide = ["\u00e9", "\u4e00", "\U0001f600"]          # 2, 3 and 4 bytes in UTF-8
+    rot = rng.below(12)
+    if tier == "quick":
+        for ti, t in enumerate(QUICK_TEMPLATES):
+            for ci, cfg in enumerate(parser_configs(radixes=((2, 10, 16, 36)[(ti + rot) % 4],))):
+                for pos in range(len(t) + 1):
+                    out.append("%s %s" % (cfg, sx(inject(t, pos, wide[(pos + ti + ci + rot) % 3], False))))
+        return out
+    for cfg in parser_configs():
+        for t in TEMPLATES + QUICK_TEMPLATES:
+            for pos in range(len(t) + 1):
+                for ch in wide:
+                    out.append("%s %s" % (cfg, sx(inject(t, pos, ch, False))))
+                    if pos < len(t):
+                        out.append("%s %s" % (cfg, sx(inject(t, pos, ch, True))))
+    return out
+
+
+def gen_parse_inject(rng, out):
+    t = rng.choice(TEMPLATES)
+    for _ in range(rng.choice([1, 1, 1, 2, 3])):
+        ch = rng.choice(FOREIGN) if rng.chance(3, 4) else rng.choice(FOREIGN_ASCII)
+        t = inject(t, rng.below(len(t) + 1), ch, rng.chance(1, 3) and len(t) > 0)
+    out.append("%s %s" % (rng.choice(parser_configs()), sx(t)))
+    if rng.chance(1, 4):
+        # the same text inside a JSON string for the human-readable deserialisers
+        esc = t.replace("\\", "\\\\").replace('"', '\\"').replace("\u0000", "\\u0000")
+        out.append("d.%s.json %s" % (rng.choice(DE_TYPES), sx('"%s"' % esc)))
+
+
 DE_TYPES = ["ubig", "ibig", "fbig", "dbig", "repr", "rbig", "relaxed"]
 JSON_PIECES = ['"', "0", "1", "-1", "1.5", "1e5", "[", "]", "{", "}", ",", ":", "null", "true", '"0x10"', '"12"', '"-12"', '"1/2"', '"1e5"', '"1.5"', '"inf"', '"-inf"',
                '"a"', '""', '"1/0"', '"_"', "[1,2]", "[true,[1]]", '{"significand":"1","exponent":0}', "[[1],0,0]", "18446744073709551616", "-9223372036854775809",
@@ -499,6 +750,8 @@ JSON_PIECES = ['"', "0", "1", "-1", "1.5", "1e5", "[", "]", "{", "}", ",", ":", 
 
 
 def gen_parse(rng, tier, out):
+    if rng.chance(1, 3):
+        return gen_parse_inject(rng, out)
     k = rng.below(10)
     if k < 3:
         out.append("p.%s %s" % (rng.choice(PARSERS_S), sx(rand_string(rng))))
@@ -517,12 +770,17 @@ def gen_parse(rng, tier, out):
 
 
 def gen_cases(rng, tier, n):
-    out = []
+    # the two systematic sweeps come first (their word values and character widths depend on the seed, the classes do not)
+    out = forms_sweep(rng.fork("forms")) + parse_sweep(rng.fork("parse"), tier)
+    if len(out) > n // 2:
+        out = out[:n // 2]
     hangs = 0
     while len(out) < n:
         k = rng.below(100)
         m = len(out)
-        if k < 38:
+        if k < 7:
+            gen_forms(rng, tier, out)
+        elif k < 38:
             gen_integer(rng, tier, out)
         elif k < 44:
             gen_modular(rng, tier, out)
@@ -532,11 +790,10 @@ def gen_cases(rng, tier, n):
             gen_rational(rng, tier, out)
         else:
             gen_parse(rng, tier, out)
-        # every hanging case costs one watchdog period: bound the number of ln(x <= 0) cases
+        # every hanging case costs one watchdog period: bound the number of Farey walks with a large limit
         for c in out[m:]:
             t = c.split()
-            slow = t[0] in ("f.ln", "f.v_ln", "f.ln_1p", "f.v_ln_1p") and (t[4].startswith("-") or t[4] in ("0", "-inf"))
-            slow = slow or (t[0] in ("q.next_up", "q.next_down", "q.nearest") and len(t[3]) > 6)
+            slow = t[0] in ("q.next_up", "q.next_down", "q.nearest") and len(t[3]) > 6
             if slow:
                 hangs += 1
                 if hangs > (12 if tier == "quick" else 60):
